@@ -79,6 +79,10 @@ void set_alloc_callbacks(std::function<void(Block&)> on_alloc, std::function<voi
 void set_mutex_unlock_callback(std::function<void()> fn);  // called by the unlocking thread just before a (simulated) mutex is released
 void name_region(const void* p, size_t n, uint64_t id);
 void ledger_set_tracking(bool on);             // track posix_memalign blocks (default on)
+// End-of-run self-test of the global QSBR state, from thread 0 with every other thread gone: exactly one thread registered,
+// and one more quiescent state of that thread advances the epoch by exactly one. Anything else would poison the following
+// runs of this worker (and be blamed on them). Returns a description of what is wrong, or an empty string.
+std::string qsbr_idle_selftest();
 void ledger_forget_all();                      // drop every ledger entry (blocks are left to the allocator); known-finding clean-up only
 
 // ----- assertion interception (C17 probes) -----
